@@ -46,6 +46,13 @@ impl C04 {
         // the member must really be conforming: confirmed by the monitor on every input
         let conf = match confirm(sp, cfg) {
             Ok(c) => c,
+            // an execution that needs more steps than the horizon (deep recursion on a value
+            // that grows in two nested loops) says nothing about conformance: not judged
+            Err(e) if e.contains("ended with Horizon") => {
+                acc.count("members_beyond_the_step_horizon", 1);
+                acc.outcome("not-judged:execution-longer-than-the-horizon", case);
+                return;
+            }
             Err(e) => {
                 acc.violation(
                     "C04|machinery|generated-program-not-conforming",
